@@ -32,6 +32,23 @@ pub enum Sig {
 
 pub type Item<X> = Result<X, Sig>;
 
+/// Known finding (see known_findings.txt, sig `single-interpolation-in-path-position`): a string that
+/// consists of exactly one interpolation is compiled by jaq to `f | tostring`, whose path/update
+/// evaluation yields nothing when `f` is empty (the manual: a value-constructing expression fails).
+/// While the finding is listed, REF leaves its domain there (the case is excluded and counted).
+pub static KNOWN_SINGLE_INTERP: std::sync::atomic::AtomicBool = std::sync::atomic::AtomicBool::new(false);
+pub static EXCLUDED_KNOWN: std::sync::atomic::AtomicU64 = std::sync::atomic::AtomicU64::new(0);
+
+fn single_interp<'a, X: Clone + 'a>(t: &T<'a>) -> Option<Stream<'a, X>> {
+    use std::sync::atomic::Ordering::Relaxed;
+    match t {
+        Term::Str(_, parts) if parts.len() == 1 && matches!(parts[0], StrPart::Term(_)) && KNOWN_SINGLE_INTERP.load(Relaxed) => {
+            Some(Stream::err(Sig::Unsupported("known-finding:single-interpolation-in-path-position".into())))
+        }
+        _ => None,
+    }
+}
+
 // ------------------------------------------------------------------ lazy lists
 
 thread_local! {
@@ -858,6 +875,9 @@ impl<'a> Ref<'a> {
         if let Some(s) = self.tick() {
             return s;
         }
+        if let Some(s) = single_interp(t) {
+            return s;
+        }
         let me = self.clone();
         let env2 = env.clone();
         let (v, p) = vp.clone();
@@ -1064,6 +1084,9 @@ impl<'a> Ref<'a> {
     /// `v | t |= u`
     pub fn upd(&self, t: &'a T<'a>, env: &Env<'a>, v: Val, u: UpdFn<'a>) -> Stream<'a, Val> {
         if let Some(s) = self.tick() {
+            return s;
+        }
+        if let Some(s) = single_interp(t) {
             return s;
         }
         let me = self.clone();
